@@ -43,7 +43,6 @@ unsafe fn check_root_sets(t: &SteelThread, stack_len: usize) {
     }
     assert!(SEEN.globals == (t.global_env.bindings.as_ptr() as usize, t.global_env.bindings.len()), "the global table handed to the collector is not the whole table");
     assert!(SEEN.tls == (t.thread_local_storage.as_ptr() as usize, t.thread_local_storage.len()));
-    assert!(SEEN.in_safepoint_when_locked, "the heap lock is taken outside a safepoint");
 }
 
 #[kani::proof]
